@@ -14,7 +14,7 @@ func init() {
 		Run:   checkC07,
 		Explanation: "C07 quantifies over schedules; what is decided is its structural necessary condition: every way the code can turn a standing claim into false (other than Stop) carries a justification that cannot arise in fault-free operation. " +
 			"(R1) every call site of a function that may demote lies, on every path, behind an edge carrying one of the enumerated justifications: an own store operation / validation / encoding step of this activation failed (error non-nil), the validation verdict was negative, the health-failure threshold was reached, the grace timer fired (C11-R3), or a watch event names another instance AND its revision is greater than the instance's own latest revision; a failed acquisition (Create) is NOT a justification. " +
-			"(R2) the revision a leader presents on refresh cannot be overwritten with an observed one (C01-R4, shared). (R3) the TTL >= 3 x heartbeat margin is enforced by validation (C16, shared).",
+			"(R2) the revision a leader presents on refresh cannot be overwritten with an observed one (C01-R4, shared). (R3) the TTL >= 3 x heartbeat margin is enforced by validation (C16, shared); (R4) the per-attempt time-out is never below H/2 and (R5) refreshes are issued every H (C03-R1/R8, shared); (R6) the refresh loop of a term ends with that term, so that two refreshers of the same instance never collide (the loser of a collision sees a revision conflict, a permanent error, and would demote a healthy leader; C03-R9, shared).",
 		NotDecided: []string{"that the record never lapses under latencies below H/2 (timing: TTL vs. refresh period)", "that no justification literal can become true in fault-free runs because of message reordering inside the NATS client"},
 		Assumptions: []string{"in fault-free operation Update/Get/validation/Marshal of a leader do not fail and health checks are healthy"},
 		Rules: map[string]string{
